@@ -108,7 +108,16 @@ LimitSet ==
   \cup {Rec(sh, b, a, NoPref) : sh \in {"over_random", "over_qP", "over_p2", "over_pow2"},
                                 b \in {513, 520, 576, 640, 768, 1000, 1023}, a \in {"auto", "pm1", "ecm", "siqs", "qs"}}
 
-C01Set == {r \in Grid : GridOK(r)} \cup PrefSet \cup EcmSet \cup {r \in SpecialSet : SpecialOK(r)} \cup BoundarySet
+\* answers with two or more entries above one machine word (the order of the returned list is decided on multiword values)
+WideSet == {Rec("pq", b, a, NoPref) : b \in {132, 136, 144, 160}, a \in {"auto", "siqs", "mpqs"}}
+           \cup {Rec("pqr", 200, "siqs", NoPref)}
+           \* volume (240 instances per repetition): semiprimes just above the size where SIQS picks its multiplier and
+           \* factor base from their widest ranges
+           \cup {Rec("pqvol", 108, "siqs", NoPref)}
+\* P-1 on structured non-squarefree inputs p^2 q [r]: p and q come out of different stage-1 blocks (see the driver)
+Pm1Structured == {Rec("sp2q", b, "pm1", NoPref) : b \in {100, 118, 130, 150}}
+
+C01Set == {r \in Grid : GridOK(r)} \cup PrefSet \cup EcmSet \cup {r \in SpecialSet : SpecialOK(r)} \cup BoundarySet \cup WideSet \cup Pm1Structured
 
 \* C02: selectors the property names, inside the working ranges of DESIGN 3/C02
 C02Auto == {Rec(sh, b, "auto", p) : sh \in Generic, b \in AutoBits, p \in {NoPref}}
@@ -139,7 +148,7 @@ BigSieveSet == {Rec("pq", b, a, AbortPref(t, 40)) : b \in {160, 200}, a \in {"mp
 
 C03Set == {r \in Grid : GridOK(r) /\ r.bits \in {24, 48, 64, 80, 100}} \cup EdgeSet \cup LimitSet \cup BigSieveSet
           \cup {r \in SpecialSet : SpecialOK(r)} \cup BoundarySet
-          \cup {r \in PrefSet : r.bits \in {48, 80}}
+          \cup {r \in PrefSet : r.bits \in {48, 80}} \cup Pm1Structured
 
 All == CASE Prop = "C01" -> C01Set [] Prop = "C02" -> C02Set [] OTHER -> C03Set
 
